@@ -85,10 +85,21 @@ def cat(*ts):
     return T(("cat", tuple(out)))
 
 
+def dec(t):
+    """ASCII decimal representation of an integer-valued term."""
+    if isinstance(t, int) and not isinstance(t, (T, bool)):
+        return b"%d" % t
+    return T(("dec", t))
+
+
+def length(t):
+    return len(t) if isinstance(t, bytes) else T(("len", t))
+
+
 def ns(t):
-    if isinstance(t, bytes):
-        return b"%d:%s," % (len(t), t)
-    return T(("ns", t))
+    """netstring(t) is not a node of its own: it is the concatenation <decimal length> ":" t "," so that any
+    spelling of the same bytes has the same normal form."""
+    return cat(dec(length(t)), b":", t, b",")
 
 
 def sha(algo, t):
@@ -117,14 +128,24 @@ def TPH(tag, a, b, t=None):
 
 
 def fmt(tpl, args):
-    if all(isinstance(a, (bytes, int)) and not isinstance(a, T) for a in args):
-        return tpl % tuple(args)
+    """bytes %-format as a concatenation: literals, %d -> dec(arg), %s -> arg."""
     toks = percent_tokens(tpl)
-    # canonical netstring:  b"%d:%s," % (len(x), x)
-    if toks == [("conv", "d"), ("lit", ":"), ("conv", "s"), ("lit", ",")] and len(args) == 2 \
-            and args[0] == T(("len", args[1])):
-        return ns(args[1])
-    return T(("fmt", tpl, tuple(args)))
+    args = list(args)
+    if sum(1 for k, _ in toks if k == "conv") != len(args):
+        raise Unsupported("format %r with %d arguments" % (tpl, len(args)))
+    out = []
+    for k, v in toks:
+        if k == "lit":
+            out.append(v.encode("latin-1"))
+            continue
+        a = args.pop(0)
+        if v == "d" and (isinstance(a, T) or (isinstance(a, int) and not isinstance(a, bool))):
+            out.append(dec(a))
+        elif v == "s" and isinstance(a, (bytes, T)):
+            out.append(a)
+        else:
+            out.append(T(("fmt1", v, a)))
+    return cat(*out)
 
 
 def show(t) -> str:
@@ -140,17 +161,32 @@ def show(t) -> str:
     if k == "S":
         return "<%s>" % t[1]
     if k == "cat":
-        return " + ".join(show(x) for x in t[1])
-    if k == "ns":
-        return "netstring(%s)" % show(t[1])
+        parts, out, i = t[1], [], 0
+        while i < len(parts):
+            p = parts[i]
+            # re-sugar  dec(len(x)) ":" x ","...  as netstring(x)
+            if isinstance(p, T) and p[0] == "dec" and isinstance(p[1], T) and p[1][0] == "len" and i + 3 < len(parts) + 0 \
+                    and parts[i + 1] == b":" and parts[i + 2] == p[1][1] and isinstance(parts[i + 3], bytes) \
+                    and parts[i + 3].startswith(b","):
+                out.append("netstring(%s)" % show(p[1][1]))
+                rest = parts[i + 3][1:]
+                if rest:
+                    out.append(show(rest))
+                i += 4
+                continue
+            out.append(show(p))
+            i += 1
+        return " + ".join(out)
+    if k == "dec":
+        return "decimal(%s)" % show(t[1])
+    if k == "fmt1":
+        return "(%%%s %% %s)" % (t[1], show(t[2]))
     if k == "sha256" and isinstance(t[1], T) and t[1][0] == "sha256":
         return "SHA256d(%s)" % show(t[1][1])
     if k in ("sha256", "sha1"):
         return "%s(%s)" % (k, show(t[1]))
     if k == "slice":
         return "%s[:%d]" % (show(t[1]), t[2])
-    if k == "fmt":
-        return "(%s %% (%s))" % (show(t[1]), ", ".join(show(a) for a in t[2]))
     if k == "len":
         return "len(%s)" % show(t[1])
     if k == "opaque":
@@ -171,17 +207,16 @@ def subst(t, env):
         return env.get("DATA", t)
     if k == "cat":
         return cat(*[subst(x, env) for x in t[1]])
-    if k == "ns":
-        return ns(subst(t[1], env))
+    if k == "dec":
+        return dec(subst(t[1], env))
+    if k == "fmt1":
+        return T(("fmt1", t[1], subst(t[2], env)))
     if k in ("sha256", "sha1"):
         return sha(k, subst(t[1], env))
     if k == "slice":
         return sl(subst(t[1], env), t[2])
-    if k == "fmt":
-        return fmt(t[1], [subst(a, env) for a in t[2]])
     if k == "len":
-        x = subst(t[1], env)
-        return len(x) if isinstance(x, bytes) else T(("len", x))
+        return length(subst(t[1], env))
     if k == "opaque":
         return T(("opaque", t[1], tuple(subst(a, env) for a in t[2])))
     raise AnalysisError("unknown term %r" % (t,))
@@ -197,17 +232,14 @@ def conc(t, env) -> bytes:
         k = x[0]
         if k == "cat":
             return b"".join(ev(y) for y in x[1])
-        if k == "ns":
-            b = ev(x[1])
-            return str(len(b)).encode("ascii") + b":" + b + b","
+        if k == "dec":
+            return str(int(ev(x[1]))).encode("ascii")
         if k == "sha256":
             return hashlib.sha256(ev(x[1])).digest()
         if k == "sha1":
             return hashlib.sha1(ev(x[1])).digest()
         if k == "slice":
             return ev(x[1])[:x[2]]
-        if k == "fmt":
-            return x[1] % tuple(ev(a) for a in x[2])
         if k == "len":
             return len(ev(x[1]))
         raise AnalysisError("term is not closed: %s" % show(x))
@@ -584,7 +616,8 @@ class Sym:
             raise Unsupported("call of %s" % f.dotted)
         if isinstance(f, Builtin):
             if f.name == "len" and len(args) == 1:
-                return len(args[0]) if isinstance(args[0], bytes) else T(("len", args[0]))
+                if isinstance(args[0], (bytes, T)):
+                    return length(args[0])
             if f.name == "bytes" and len(args) == 1 and isinstance(args[0], (bytes, T)):
                 return args[0]
             if f.name == "isinstance":
@@ -731,7 +764,7 @@ def b32enc(b: bytes) -> bytes:
 # ================================================================ frozen table
 P0, P1, P2, P3, P4 = P(0), P(1), P(2), P(3), P(4)
 _CE = b"allmydata_immutable_content_to_key_with_added_secret_v1+"
-_CETAG = cat(_CE, ns(P3), ns(T(("fmt", b"%d,%d,%d", (P0, P1, P2)))))
+_CETAG = cat(_CE, ns(P3), ns(cat(dec(P0), b",", dec(P1), b",", dec(P2))))
 
 
 def _hash_and_hasher(stem, tag, why):
@@ -980,7 +1013,7 @@ def run(ctx: Context):
     # ---- 4. reference implementation, whole chain, published vectors -----------
     with ctx.rule("C17.4", "R5", "lease.rst chain == derive_renewal_secret.py (folded) == "
                   "bucket(file(my(lease secret), storage index), peer id) in hashutil; the folded code chain "
-                  "evaluates to the published test vectors", expected=6) as r:
+                  "evaluates to the published test vectors", expected=7) as r:
         leaves = {"lease secret": P0, "storage index": P1, "peer id": P2}
         code = {}
         for kind in ("renewal", "cancel"):
@@ -1030,7 +1063,7 @@ def run(ctx: Context):
     # ---- 5. call-site chains ---------------------------------------------------
     with ctx.rule("C17.5", "R6/E6", "lease-secret chain at its call sites: SecretHolder hashes the lease secret read "
                   "from private/secret; upload and mutable filenode hash it with the file's storage index and then "
-                  "with the server's lease seed; renew/cancel reach allocate_buckets unswapped", expected=12) as r:
+                  "with the server's lease seed; renew/cancel reach allocate_buckets unswapped", expected=13) as r:
         # SecretHolder
         SH = "client:SecretHolder"
         init = idx.func(SH + ".__init__")
@@ -1184,7 +1217,7 @@ def run(ctx: Context):
     with ctx.rule("C17.6", "R6/E6", "key chains: writekey->readkey->storage index in writeable SSK/MDMF caps, "
                   "readkey->storage index in read-only caps, key->storage index in CHK caps and at upload; "
                   "derive_mutable_keys; the node's keys come from its cap; data key, dirnode child-cap key and the "
-                  "convergent key are derived identically by writer and reader", expected=16) as r:
+                  "convergent key are derived identically by writer and reader", expected=28) as r:
         for cname in ("WriteableSSKFileURI", "WriteableMDMFFileURI"):
             fn = idx.func("uri:%s.__init__" % cname)
             wk = first_positional_params(fn)[0]
@@ -1278,6 +1311,37 @@ def run(ctx: Context):
         for n, c in wks:
             r.site(ic, n.ast, "self._writekey")
             r.require(c == L("self._uri.writekey"), ic, ic.loc(n.ast), "self._writekey = %s ; specified self._uri.writekey" % show_chain(c))
+        # a new mutable file: the triple of derive_mutable_keys is unpacked in its order and the cap is built from
+        # (writekey, fingerprint); the node's read key and storage index are the cap's
+        cw = idx.func("mutable.filenode:MutableFileNode.create_with_keys")
+        seen = 0
+        for n in func_own_nodes(cw):
+            if isinstance(n, ast.Assign) and any(isinstance(x, ast.Name) and x.id == "derive_mutable_keys"
+                                                 for x in ast.walk(n.value)):
+                seen += 1
+                r.site(cw, n, "derive_mutable_keys result")
+                tg = n.targets[0]
+                got = [attr_path(x) for x in tg.elts] if isinstance(tg, (ast.Tuple, ast.List)) else [attr_path(tg)]
+                r.require(got == ["self._writekey", "self._encprivkey", "self._fingerprint"], cw, cw.loc(n),
+                          "the (writekey, encprivkey, fingerprint) triple is unpacked into %s" % got)
+        if not seen:
+            raise AnchorVanished("create_with_keys no longer uses derive_mutable_keys")
+        seen = 0
+        for c in calls_in_func(cw, "WriteableSSKFileURI") + calls_in_func(cw, "WriteableMDMFFileURI"):
+            seen += 1
+            r.site(cw, c, "new cap")
+            got = [attr_path(a) for a in c.args]
+            r.require(got == ["self._writekey", "self._fingerprint"] and not c.keywords, cw, cw.loc(c),
+                      "the new cap is built from %s ; specified (self._writekey, self._fingerprint)" % got)
+        if seen < 2:
+            raise AnchorVanished("create_with_keys no longer builds the SDMF and MDMF caps")
+        for attr, want in (("self._storage_index", "self._uri.storage_index"), ("self._readkey", "self._uri.readkey")):
+            sc = store_chains(idx, cw, attr)
+            if not sc:
+                raise AnchorVanished("create_with_keys does not store %s" % attr)
+            for n, c in sc:
+                r.site(cw, n.ast, attr)
+                r.require(c == L(want), cw, cw.loc(n.ast), "%s = %s ; specified %s" % (attr, show_chain(c), want))
         # writer / reader agreement of symmetric keys
         pairs = [
             ("mutable data key", "ssk_readkey_data_hash",
